@@ -366,6 +366,29 @@ class Fragment:
         self.note(cls, 1, f"ghost text after {anchor!r}")
         return True
 
+    def insert_after_stmt(self, anchor, text, cls='V-SPEC'):
+        """insert ghost text after the statement that starts with `anchor` (up to its terminating `;` at bracket depth 0)."""
+        idx = self.text.find(anchor)
+        if idx < 0:
+            raise ScanError(f"{self.what}: anchor not found: {anchor!r}")
+        s = self._src()
+        depth = 0
+        i = idx
+        while i < len(self.text):
+            if s.mask[i]:
+                ch = self.text[i]
+                if ch in '([{':
+                    depth += 1
+                elif ch in ')]}':
+                    depth -= 1
+                elif ch == ';' and depth == 0:
+                    break
+            i += 1
+        if i >= len(self.text):
+            raise ScanError(f"{self.what}: statement end not found after {anchor!r}")
+        self.text = self.text[:i + 1] + text + self.text[i + 1:]
+        self.note(cls, 1, f"ghost text after the statement starting with {anchor!r}")
+
     def annotate_closure(self, call, params, ret, ensures, nth=1, requires=None, obl=None):
         """V-CLOSURE: the closure passed as (last) argument of the nth `call` (e.g. '.filter(') gets explicit
         parameter types, a named result and an `ensures` clause.  The closure *body text is kept byte for
